@@ -89,7 +89,11 @@ func (w *WorkerPool) Submit(workerFunc func(), optStackTrace ...string) {
 		return
 	}
 
+	verifYield("wp.submit.afterRunningCheck")
+
 	w.increasePendingTasks()
+
+	verifYield("wp.submit.beforePush")
 
 	w.Queue.Push(newTask(workerFunc, w.decreasePendingTasks, lo.First(optStackTrace)))
 }
